@@ -1,4 +1,24 @@
 From Coq Require Import List ZArith NArith Bool.
-From Stam Require Import Model.StamqlLex Model.Stamql Proofs.StamqlLex Props.C09.
+From Stam Require Import Model.StamqlLex Model.Stamql Proofs.StamqlLex Proofs.StamqlTotal Props.C09.
 Check (C09_get_arg_total : forall dt s, get_arg dt s <> Panic /\ get_arg dt s <> Fuel).
+Check (C09_slice_safe : forall kw qs,
+  str_eqb (split_first qs) kw = true -> exists r, qs = kw ++ r /\ strip kw qs = Ok r).
+Check (C09_numeric_safe : forall dt op v quoted,
+  parse_dataoperator dt op v (get_arg_type dt v quoted) <> Panic
+  /\ parse_dataoperator dt op v (get_arg_type dt v quoted) <> Fuel).
+Check (C09_float_never_lexed : forall dt s quoted, get_arg_type dt s quoted <> TFloat).
+Check (C09_parse_total : forall (dt : str -> option str) (re : str -> bool) (s : str),
+  parse_query dt re s <> Panic /\ parse_query dt re s <> Fuel).
+Check (C09_try_from_total : forall (dt : str -> option str) (re : str -> bool) (s : str),
+  query_try_from dt re s <> Panic /\ query_try_from dt re s <> Fuel).
 Print Assumptions C09_get_arg_total.
+Print Assumptions C09_parse_name_total.
+Print Assumptions C09_parse_attributes_total.
+Print Assumptions C09_slice_safe.
+Print Assumptions C09_slice_safe_prefix.
+Print Assumptions C09_numeric_safe.
+Print Assumptions C09_float_never_lexed.
+Print Assumptions C09_constraint_total.
+Print Assumptions C09_parse_total.
+Print Assumptions C09_try_from_total.
+Print Assumptions C09_remainder_bounded.
